@@ -16,6 +16,9 @@ Op lines (strings percent-encoded; `<hdrs>` = `_` or `k|v;k|v…`; `<list>` = `_
   legacyresp status=<int> [body=<s>] [rh=<hdrs>] <remedy>…  runner.DispatchOnResponse  → spoe <n> <var>…
       <remedy> = fixed=<int> | acct=<hdrs> | apikey=<hdrs> | oauth=<s> | retry=<n>,<lo>,<hi> | throttle=<int> | cache=on
       all legacy ops of one case run against the SAME plugin objects (state carries over)
+  reqflow req=<json> procs=<json> p=<action>… / respflow resp=<json> procs=<json> p=<action>…
+      flows mode: real processors in sequence over one API stream, folded by the real fold site; the p= words are
+      what each processor produced WHEN it produced it (the processor configurations are opaque to the model) → spoe …
 -/
 open LunarVerif LunarVerif.Proto LunarVerif.C07
 
@@ -210,6 +213,14 @@ def parseRespArgs (ws : List String) : Option (String × Hdrs × List Remedy) :=
   | none, some rs => some (body.getD "", [], rs)
   | _, none => none
 
+/-- The `p=` words of a flow op: the produced actions, in order; `none` when the line is malformed. -/
+def parseFlow {α} (parseAct : List String → Option α) (key : String) (ws : List String) : Option (List α) :=
+  let hasKey := ws.any (·.startsWith key)
+  let hasProcs := ws.any (·.startsWith "procs=")
+  let wellFormed := ws.all fun w => w.startsWith key || w.startsWith "procs=" || w.startsWith "p="
+  if !(hasKey && hasProcs && wellFormed) then none
+  else (ws.filter (·.startsWith "p=")).mapM fun w => parseAct (words (decB (w.drop 2).toString))
+
 /-! ### which actions the harness can obtain from a real remedy (see harness/go/cmd/c07/policy.go) -/
 
 def reqExpressible : ReqAct → Bool
@@ -286,6 +297,14 @@ def runStep (s : RunSt) (line : String) : RunSt × String :=
     | none =>
       let vals := names.filterMap fun n => (s.store.lookup n).bind Obj.asResp
       (s, fmtEnc (encodeResp (foldResp vals)))
+  | "reqflow" :: ws =>
+    match parseFlow parseReqWords "req=" ws with
+    | some vals => (s, fmtEnc (encodeReq (foldReq vals)))
+    | none => (s, "bad-op")
+  | "respflow" :: ws =>
+    match parseFlow parseRespWords "resp=" ws with
+    | some vals => (s, fmtEnc (encodeResp (foldResp vals)))
+    | none => (s, "bad-op")
   | "legacyreq" :: h :: rems =>
     match (if h.startsWith "h=" then parseHdrs (h.drop 2).toString else none), rems.mapM parseRemedy with
     | some H0, some rs =>
@@ -372,6 +391,16 @@ def judgeStep (s : JudgeSt) (op out : String) : JudgeSt :=
     | some ins, some vs =>
       let all := s.names ++ names
       { s with names := all, obs := (.reqSite ins vs, all) :: s.obs }
+    | _, _ => { s with bad := some ("unparsable-answer:" ++ encB out) }
+  | "reqflow" :: ws =>
+    if out.startsWith "err:" || out == "bad-op" then s else
+    match parseFlow parseReqWords "req=" ws, parseSpoe (words out) with
+    | some ins, some vs => { s with obs := (.reqSite ins vs, s.names) :: s.obs }
+    | _, _ => { s with bad := some ("unparsable-answer:" ++ encB out) }
+  | "respflow" :: ws =>
+    if out.startsWith "err:" || out == "bad-op" then s else
+    match parseFlow parseRespWords "resp=" ws, parseSpoe (words out) with
+    | some ins, some vs => { s with obs := (.respSite ins vs, s.names) :: s.obs }
     | _, _ => { s with bad := some ("unparsable-answer:" ++ encB out) }
   | "legacyreq" :: h :: rems =>
     if out.startsWith "err:" || out == "bad-op" then s else
